@@ -41,6 +41,10 @@ pub struct Script {
     pub end: End,
     /// Largest number of bytes one `write` accepts (None: all).
     pub write_max: Option<usize>,
+    /// After the wire: these bytes again and again, for ever (an endless peer), up to a hard cap
+    /// of `repeat_cap` bytes after which reads fail and `budget_exceeded` is set.
+    pub repeat: Option<Arc<Vec<u8>>>,
+    pub repeat_cap: usize,
 }
 
 impl Script {
@@ -51,6 +55,8 @@ impl Script {
             fault: None,
             end: End::Eof,
             write_max: None,
+            repeat: None,
+            repeat_cap: 0,
         }
     }
 }
@@ -80,6 +86,9 @@ pub struct Shared {
     pub dropped: bool,
     /// written.len() at the time of each read, (wire position, bytes written so far)
     pub written_at_read: Vec<(usize, usize)>,
+    /// bytes served from the endless part
+    pub served_repeat: usize,
+    pub budget_exceeded: bool,
 }
 
 pub struct Scripted {
@@ -139,6 +148,21 @@ impl Read for Scripted {
             }
         }
         if s.pos >= len {
+            if let Some(rep) = &self.script.repeat {
+                if s.served_repeat >= self.script.repeat_cap {
+                    s.budget_exceeded = true;
+                    return Err(io::Error::new(io::ErrorKind::Other, "VERIF-BUDGET"));
+                }
+                let mut n = buf.len().min(4096);
+                if let Some(u) = self.script.policy.uniform {
+                    n = n.min(u.max(1));
+                }
+                for (i, b) in buf[..n].iter_mut().enumerate() {
+                    *b = rep[(s.served_repeat + i) % rep.len()];
+                }
+                s.served_repeat += n;
+                return Ok(n);
+            }
             return match self.script.end {
                 End::Eof => {
                     if self.log_events {
